@@ -79,8 +79,9 @@ def cases(tier, seed):
             # nesting is only meaningful for associative aggregates ("count" of counts is not the count)
             case["aggs"] = [a if a != "count" else "sum" for a in case["aggs"]]
             case.update({"nested": rng.randint(1, k - 1) if k > 2 else 1, "buf2": rng.choice([1, 4, 10 ** 6]), "left": h % 8 == 1})
-        elif h % 7 == 3:
+        elif h % 7 in (3, 5):
             case["via"] = "cli"
+            case["barefields"] = h % 2 == 0
         if h % 6 == 5:
             case["shared_file"] = True
         yield "mg.merge", case
